@@ -88,6 +88,10 @@ def gen_input(rng, target, knobs=None, huge=False):
         data, items = gen.serialise(tree)
         return dict(root="Response", data=data, cc=cc, enc=True if tree[7] else None, items=items, arms=g.arms,
                     knobs=k, label="response:%s:rc%s:e%d" % (layout().commands[cc]["name"], ("%x" % tree[2]) if tree[2] in (0, 0x101, 0x100, 0x9A2, 0x1C4, 0xB01, 0x922, 0x84) else "other", tree[7]))
+    if kind == "stream" and target[1] is None and rng.random() < 0.04:
+        sc = scenario_stream(rng)
+        if sc:
+            return sc
     if kind == "stream":
         n = rng.randint(1, 4)
         trees, metas = [], []
@@ -323,6 +327,8 @@ def perturb(rng, main_specs, p_by=0.4, max_by=2, roots=False):
     specs = list(main_specs)
     if roots and rng.random() < 0.1:
         r = rng.choice(ROOTS)
+        if "[" in r and rng.random() < 0.4:
+            r = "~" + r         # written down with Path.from_string: prints the same, indices are part of the node names
         for s in specs:
             s["root_path"] = r
     if rng.random() < 0.05:
@@ -528,6 +534,135 @@ def shrink_bytes_tail(case, tid="main"):
                 yield c
 
 
+def scenario_stream(rng):
+    """a capture whose messages belong together, the way real traffic does: handles returned by one response are used by
+    later commands, an NV index that is defined is then written, read (whole, from offset 0) and looked up, a hash
+    sequence is started, fed and completed.  Nothing here is special to the layout tables - every message is well-formed
+    on its own; only the *values* are related across messages.  -> input dict like gen_input(("stream", ...))"""
+    L = layout()
+    k = gen.Knobs(rng)
+    k.p_fail, k.p_absent, k.max_nodes = 0.0, 0.0, max(k.max_nodes, 60)
+    g = gen.Gen(rng, k)
+    cc = L.cc_by_name
+    kind = rng.choice(("nv", "nv", "object", "sequence", "mixed"))
+    nt = n = idx = None
+    if kind == "nv":
+        nt = rng.choice((0, 1, 2, 4, 8, 9))                       # ordinary, counter, bits, extend, PIN fail, PIN pass
+        n = 8 if nt in (1, 2, 8, 9) else rng.choice((20, 32)) if nt == 4 else rng.choice((1, 8, 16, 32, 64))
+        idx = 0x01000000 | rng.randrange(1 << 24)
+        seq = ["NV_DefineSpace"] + rng.sample(["NV_Write", "NV_Read", "NV_ReadPublic", "NV_Read", "NV_Increment", "NV_ReadLock"], rng.randint(2, 4))
+        if "NV_Read" not in seq or rng.random() < 0.5:
+            seq.append("NV_Read")
+        if rng.random() < 0.3:
+            seq.append("NV_UndefineSpace")
+    elif kind == "object":
+        seq = [rng.choice(("CreatePrimary", "Load", "LoadExternal", "CreateLoaded"))] + rng.sample(["ReadPublic", "Sign", "Certify", "ObjectChangeAuth", "Unseal", "ContextSave", "EvictControl", "RSA_Decrypt", "HMAC"], rng.randint(1, 3)) + ["FlushContext"]
+    elif kind == "sequence":
+        seq = [rng.choice(("HashSequenceStart", "HMAC_Start"))] + ["SequenceUpdate"] * rng.randint(1, 3) + [rng.choice(("SequenceComplete", "EventSequenceComplete"))]
+    else:
+        seq = ["StartAuthSession", "CreatePrimary", "NV_DefineSpace", "NV_Read", "ReadPublic", "PCR_Extend", "PCR_Read", "FlushContext"]
+        idx, nt, n = 0x01000000 | rng.randrange(1 << 24), rng.choice((0, 8, 9)), 8
+    seq = [c for c in seq if c in cc]
+    known = []                                                    # handles seen so far in responses / definitions, newest last
+    if idx is not None:
+        known.append(idx)
+
+    def patch(tree, fixes):
+        data, items = gen.serialise(tree)
+        b = bytearray(data)
+        for it in items:
+            if it[0] != "P":
+                continue
+            for suffix, val in fixes:
+                if it[1].endswith(suffix) and val is not None and L.valid(it[2], val):
+                    b[it[4]:it[4] + it[5]] = int(val).to_bytes(it[5], "big")
+            if it[1].startswith(".handles.") and it[5] == 4 and rng.random() < 0.8:
+                fit = [h for h in reversed(known) if L.valid(it[2], h)]
+                if fit:
+                    b[it[4]:it[4] + 4] = fit[0].to_bytes(4, "big")
+        return bytes(b)
+    out, metas = [], []
+    for name in seq:
+        c = cc[name]
+        ns = rng.choice((0, 0, 1, 2))
+        cmd, resp_enc = g.command(cc=c, n_sessions=ns, enc=False, resp_enc=False)
+        if cmd[4] is None and L.commands[c]["cmd_handles"] and name.startswith("NV_") and rng.random() < 0.5:
+            cmd, resp_enc = g.command(cc=c, n_sessions=1, enc=False, resp_enc=False)
+        fixes = []
+        if name == "NV_DefineSpace" and idx is not None:
+            attrs = (rng.randrange(1 << 32) & ~0xF0) | (nt << 4)
+            fixes = [(".nvPublic.nvIndex", idx), (".nvPublic.attributes", attrs), (".nvPublic.dataSize", n)]
+        elif name == "NV_Read" and n is not None:
+            fixes = [(".parameters.size", n), (".parameters.offset", 0)]
+        elif name == "NV_Write":
+            fixes = [(".parameters.offset", 0)]
+        cb = patch(cmd, fixes)
+        if name in ("NV_Read", "NV_Write") and n is not None:
+            g.buf_size = lambda n=n: n
+        if name == "NV_Write" and n is not None:
+            cmd, resp_enc = g.command(cc=c, n_sessions=ns, enc=False, resp_enc=False)
+            cb = patch(cmd, fixes)
+        rsp = g.response(c, enc=False, fail=False, n_sessions=(len(cmd[4]) if cmd[4] else 0))
+        if "buf_size" in vars(g):
+            del g.buf_size
+        rb, ritems = gen.serialise(rsp)
+        for it in ritems:
+            if it[0] == "P" and it[1].startswith(".handles.") and it[5] == 4:
+                known.append(it[3])
+        if name == "NV_ReadPublic" and idx is not None:
+            rb = patch(rsp, [(".nvPublic.nvIndex", idx), (".nvPublic.dataSize", n)])
+        out += [cb, rb]
+        metas += [dict(kind="command", cc=None, enc=None), dict(kind="response", cc=c, enc=None)]
+    data = b"".join(out)
+    bounds = [0]
+    for m in out:
+        bounds.append(bounds[-1] + len(m))
+    o = model.decode(model.STREAM, data)
+    if not o.ok:
+        return None
+    return dict(root=model.STREAM, data=data, cc=None, enc=None, items=o.items, arms=g.arms, knobs=k, bounds=bounds, metas=metas,
+                label="scenario:%s:%d" % (kind if nt is None else "%s-nt%d" % (kind, nt), len(out)))
+
+
+def uniform_assumption_fault(rng, inp, o):
+    """a size field that encloses a list of elements of different sizes is off by exactly what a size computed as
+    count x (size of one element) would be off by (F.uniform_deltas).  Lists of differently sized elements are digests of
+    several banks, PCR selections, sessions, capability lists: if the input at hand has none, an exchange around such a
+    list is generated instead, three times out of four.  -> (inp, data, fault records) or None"""
+    from .. import faults as F
+    if not F.uniform_deltas(o) and rng.random() < 0.75:
+        for _ in range(8):
+            cc_ = rng.choice((0x17E, 0x13C, 0x185, 0x171, 0x182, 0x17A, 0x12B, rng.choice(sorted(layout().commands))))
+            k = gen.Knobs(rng)
+            k.max_list = max(k.max_list, 3)
+            t = ("response", cc_, rng.choice((0, 1, 1, 2)), False, False) if rng.random() < 0.6 else ("command", cc_, rng.choice((0, 1, 2)), False)
+            inp2 = gen_input(rng, t, k)
+            o2 = model.decode(inp2["root"], inp2["data"], cc=inp2["cc"], enc=inp2["enc"])
+            if o2.ok and F.uniform_deltas(o2):
+                inp, o = inp2, o2
+                break
+    lists = F.uniform_deltas(o)
+    if not lists:
+        return None
+    a, b, dd = rng.choice(lists)
+    size_item = {ri: idx for idx, ri in o.sizefields}
+    encl = [(ri, r) for ri, r in enumerate(o.regions) if r.max is not None and ri in size_item and r.start <= a and b <= r.start + r.max]
+    if not encl:
+        return None
+    ri, r = rng.choice(encl)
+    sit = o.items[size_item[ri]]
+    d = rng.choice(dd)
+    nd = F.put(inp["data"], sit, sit[3] + d)
+    if nd is None or sit[3] + d < 0:
+        return None
+    recs = [F._rec("size", o, sit, size_item[ri], old=sit[3], new=sit[3] + d, region=r.kind, delta="uniform-assumption")]
+    if rng.random() < 0.3:
+        fa = F.fault_append(nd, o, rng)
+        if fa:
+            return inp, fa[0], recs + [fa[1]]
+    return inp, nd, recs
+
+
 def nested_chain_fault(rng, inp, o, p_append=0.6):
     """one field overruns two, three or more nested regions at once (F.fault_nested_chain).  Three deep exists in responses
     with a session area (responseSize > parameterSize > a structure TPM2B) and in user-declared nested TPM2Bs: if the
@@ -650,6 +785,10 @@ def gen_malformed(rng, i, p_wellformed=0.1, allow_random=True, huge=False):
         f = nested_chain_fault(rng, inp, o)
         if f:
             return f[0], f[1], f[2], "nested-chain"
+    if rng.random() < 0.03:
+        f = uniform_assumption_fault(rng, inp, o)
+        if f:
+            return f[0], f[1], f[2], "uniform-assumption"
     if rng.random() < 0.06:
         f = F.fault_nested_pair(data, o, rng)
         if f:
